@@ -21,7 +21,7 @@ FAMILY = {
     'C11': {'lookups_agree'},
 }
 
-MC_ACTIONS = ['Begin', 'AbortBy', 'Commit', 'SGet', 'SetSTok', 'SUnget', 'SWriteEntityAs', 'SWriteEntities', 'CGet', 'CMk', 'SetCTok',
+MC_ACTIONS = ['Begin', 'AbortBy', 'Commit', 'SGet', 'SetSTok', 'SUnget', 'SWriteEntityAs', 'SWriteEntities', 'DWriteEntities', 'DRemoveEntity', 'CGet', 'CMk', 'SetCTok',
               'CDisAll', 'CEntUpdate', 'CEntNew', 'CEntDelete', 'DGet', 'SetDTok', 'DAdd', 'DRemove', 'DGetState', 'DWriteEntityAs', 'DNewEntity', 'MutateCopy',
               'KeepEntity', 'DWriteEntityCtx']
 
